@@ -23,12 +23,17 @@ func init() {
 			"return (vmcommon.Ok / nil error; `if code != Ok { return code }` is recognised as failure) only through a saver of that same value or a delete of its storage entry, unless the function hands the record back " +
 			"(returns it, or got it as a parameter: the obligation moves to the caller through the callee's summary). Functions whose call cone performs no storage write, transfer or nested execution are views and exempt. " +
 			"A total updated in one record while the record holding the matching sum is not saved (or the reverse) is exactly how the totals and the per-delegator funds drift apart. Reviewed exceptions are listed with a " +
-			"reason that is re-verified on every run. Not decided (value-level): the arithmetic relating the records (sums, thresholds, unbonding periods), operation histories.",
+			"reason that is re-verified on every run. " +
+			"Also: a change of a delegator's active fund is preceded on every path (callers followed) by the settling of its rewards or the initialisation of its checkpoint; a function that resets UnClaimedRewards pays out or re-stakes exactly that counter; " +
+			"the early exit of withdraw's fund loop is accepted only while validatorSC.unBondTokens returns no data (no Finish in its cone), which makes the partial-unbond branch dead. " +
+			"Not decided (value-level): the arithmetic relating the records (sums, thresholds, unbonding periods), operation histories.",
 		Run: func(c *core.Ctx) {
 			runWriteBack(c, "C38", "delegation", 25, wbExceptionsC38)
 			c38Checkpoint(c)
 			c38NewDelegatorInitialised(c)
 			c38FundListConserved(c)
+	c38PaidIsTheZeroedCounter(c)
+	c38SettledBeforeStakeChanges(c)
 		},
 	})
 	register(&Rule{
@@ -43,6 +48,7 @@ func init() {
 			"the end markers (own key as PreviousKey of the first element, empty NextKey of the last) are exempt. A one-sided link leaves an element that still marks itself as first, and removing it later cuts the real first element out of the list. " +
 			"(S4) removeFromWaitingList reaches a success return, once the length was decremented, only through a store of LastJailedKey, the deletion of the head, or the branch on which the removed key is known not to be the last-jailed marker; " +
 			"functions that prefix a BLS key themselves (add/removeFromWaitingList, ...) are never handed an already prefixed key. " +
+			"The link written on the neighbour names the element: its value is the key the element is saved under (same origins), neighbours being the elements whose load dominates the link store. " +
 			"Not decided (value-level): which element becomes first/last/last-jailed, the comparison of the counter with the configured maximum, feature-flag dependent branches.",
 		Run: func(c *core.Ctx) {
 			runWriteBack(c, "C39", "stakingSC", 15, nil)
@@ -276,6 +282,62 @@ func c38NewDelegatorInitialised(c *core.Ctx) {
 	wb := core.NewWriteBack(funcs[0].Pkg, funcs)
 	wb.Run()
 	n := 0
+	// savesWithoutCP: g can write the record given as its i-th argument to storage on a path on which
+	// it has neither assigned the record's RewardsCheckpoint nor settled its rewards (the settling
+	// routine assigns it). A callee that initialises before it saves is not a "save of an
+	// uninitialised record" for its caller.
+	var savesWithoutCP func(g *ssa.Function, i int, depth int) bool
+	savesWithoutCP = func(g *ssa.Function, i int, depth int) bool {
+		if depth > 3 || len(g.Blocks) == 0 || i >= len(g.Params) {
+			return true
+		}
+		p := ssa.Value(g.Params[i])
+		sets := func(x ssa.Instruction) bool {
+			if st, ok := x.(*ssa.Store); ok {
+				if fa, ok := st.Addr.(*ssa.FieldAddr); ok && core.FieldOfAddr(fa) == cp && fa.X == p {
+					return true
+				}
+			}
+			if cc := core.CallOf(x); cc != nil && cc.StaticCallee() != nil && cc.StaticCallee().Name() == "computeAndUpdateRewards" {
+				for _, a := range cc.Args {
+					if a == p {
+						return true
+					}
+				}
+			}
+			return false
+		}
+		passesOn := false
+		target := func(x ssa.Instruction, _ *ssa.BasicBlock) bool {
+			cc := core.CallOf(x)
+			if cc == nil || cc.StaticCallee() == nil {
+				return false
+			}
+			for j, a := range cc.Args {
+				if a == p && wb.Saves(cc.StaticCallee(), j) {
+					passesOn = true
+					if savesWithoutCP(cc.StaticCallee(), j, depth+1) {
+						return true
+					}
+				}
+			}
+			return false
+		}
+		core.Instrs(g, func(x ssa.Instruction) {
+			if cc := core.CallOf(x); cc != nil && cc.StaticCallee() != nil {
+				for j, a := range cc.Args {
+					if a == p && wb.Saves(cc.StaticCallee(), j) {
+						passesOn = true
+					}
+				}
+			}
+		})
+		esc, _ := core.PathQ{Fn: g, Via: sets, Target: target}.Escape()
+		if esc != nil {
+			return true
+		}
+		return !passesOn // the primitive saver itself (marshals and stores the record)
+	}
 	for _, fn := range funcs {
 		for _, in := range core.CallsIn(fn, func(in ssa.Instruction, cc *ssa.CallCommon) bool { return cc.StaticCallee() == get }) {
 			call := in.(*ssa.Call)
@@ -323,7 +385,7 @@ func c38NewDelegatorInitialised(c *core.Ctx) {
 					return false
 				}
 				for i, a := range cc.Args {
-					if a == rec && wb.Saves(cc.StaticCallee(), i) {
+					if a == rec && wb.Saves(cc.StaticCallee(), i) && savesWithoutCP(cc.StaticCallee(), i, 0) {
 						return true
 					}
 				}
@@ -437,6 +499,167 @@ func c38FundListConserved(c *core.Ctx) {
 			"the loop over the delegator's unstaked funds is left early at "+c.P.Pos(firstPos(to))+" on a path that can succeed: the funds after this one are dropped from the delegator's list although they stay in storage and in TotalUnStaked")
 	}
 	c.Floor("C38/fund-list-conserved", 2)
+}
+
+// c38PaidIsTheZeroedCounter: a function of the delegation contract that resets a delegator's
+// UnClaimedRewards to zero pays out (Transfer) or re-stakes (hands to another method of the
+// contract) exactly that counter: every *big.Int amount it passes on is the UnClaimedRewards field
+// or a copy of it. Paying from another counter (e.g. the cumulated total) pays rewards twice.
+func c38PaidIsTheZeroedCounter(c *core.Ctx) {
+	const pkg = "vm/systemSmartContracts"
+	unclaimed := c.P.Field(pkg, "DelegatorData", "UnClaimedRewards")
+	if unclaimed == nil {
+		c.Undecided("anchor", "DelegatorData.UnClaimedRewards", 0, "field not found")
+		return
+	}
+	isBigPtr := func(t types.Type) bool { return strings.HasSuffix(t.String(), "*math/big.Int") }
+	var fromCounter func(v ssa.Value, d int) bool
+	fromCounter = func(v ssa.Value, d int) bool {
+		if d > 4 {
+			return false
+		}
+		if _, f := core.FieldLoad(v); f == unclaimed {
+			return true
+		}
+		if call, ok := v.(*ssa.Call); ok && core.CallDesc(&call.Call).Is("math/big", "Int", "Set") {
+			return fromCounter(call.Call.Args[1], d+1)
+		}
+		return false
+	}
+	n := 0
+	for _, fn := range c.P.FuncsOfPkg(pkg) {
+		if fn.Signature.Recv() == nil || !strings.HasSuffix(fn.Signature.Recv().Type().String(), ".delegation") {
+			continue
+		}
+		zeroes := false
+		core.Instrs(fn, func(in ssa.Instruction) {
+			cc := core.CallOf(in)
+			if cc == nil || !core.CallDesc(cc).Is("math/big", "Int", "") {
+				return
+			}
+			nm := core.CallDesc(cc).Name
+			if _, f := core.FieldLoad(cc.Args[0]); f == unclaimed && (nm == "SetUint64" || nm == "SetInt64") {
+				if z, isC := core.ConstInt(cc.Args[1]); isC && z == 0 {
+					zeroes = true
+				}
+			}
+		})
+		if !zeroes {
+			continue
+		}
+		c.Analysed(fname(fn))
+		k := 0
+		core.Instrs(fn, func(in ssa.Instruction) {
+			cc := core.CallOf(in)
+			if cc == nil {
+				return
+			}
+			own := cc.StaticCallee() != nil && cc.StaticCallee().Signature.Recv() != nil && strings.HasSuffix(cc.StaticCallee().Signature.Recv().Type().String(), ".delegation")
+			transfer := cc.IsInvoke() && cc.Method.Name() == "Transfer"
+			if !own && !transfer {
+				return
+			}
+			for i, a := range cc.Args {
+				if !isBigPtr(a.Type()) {
+					continue
+				}
+				k++
+				n++
+				c.Sites++
+				callee := "Transfer"
+				if own {
+					callee = cc.StaticCallee().Name()
+				}
+				c.Check(fromCounter(a, 0), "C38/paid-amount-is-the-zeroed-counter", fmt.Sprintf("%s/%s#arg%d", fname(fn), callee, i), in.Pos(),
+					"the amount handed on is UnClaimedRewards (or a copy of it), the counter this function resets",
+					fmt.Sprintf("%s resets UnClaimedRewards to zero but hands %s to %s: the amount paid out or re-staked is not the counter that is cleared - rewards already taken out once are taken out again (rewards paid exceed rewards received)", fname(fn), core.ExprKey(a), callee))
+			}
+		})
+	}
+	c.Floor("C38/paid-amount-is-the-zeroed-counter", 3)
+}
+
+// c38SettledBeforeStakeChanges: rewards are computed from the active fund as it is stored. A
+// change of a delegator's active fund (addValueToFund / saveFund on delegator.ActiveFund) is
+// therefore preceded, on every path of the operation, by the settling of that delegator's rewards
+// (computeAndUpdateRewards) or by the initialisation of a new delegator's checkpoint - in the
+// function itself or, when the function is a helper, before every call of it.
+func c38SettledBeforeStakeChanges(c *core.Ctx) {
+	const pkg = "vm/systemSmartContracts"
+	cp := c.P.Field(pkg, "DelegatorData", "RewardsCheckpoint")
+	if cp == nil {
+		c.Undecided("anchor", "DelegatorData.RewardsCheckpoint", 0, "field not found")
+		return
+	}
+	var fns []*ssa.Function
+	for _, f := range c.P.FuncsOfPkg(pkg) {
+		if f.Signature.Recv() != nil && strings.HasSuffix(f.Signature.Recv().Type().String(), ".delegation") {
+			fns = append(fns, f)
+		}
+	}
+	settles := func(x ssa.Instruction) bool {
+		if st, ok := x.(*ssa.Store); ok {
+			if fa, ok := st.Addr.(*ssa.FieldAddr); ok && core.FieldOfAddr(fa) == cp {
+				return true
+			}
+		}
+		cc := core.CallOf(x)
+		return cc != nil && cc.StaticCallee() != nil && cc.StaticCallee().Name() == "computeAndUpdateRewards"
+	}
+	callers := func(g *ssa.Function) (out []ssa.Instruction) {
+		for _, f := range fns {
+			core.Instrs(f, func(in ssa.Instruction) {
+				if cc := core.CallOf(in); cc != nil && cc.StaticCallee() == g {
+					out = append(out, in)
+				}
+			})
+		}
+		return out
+	}
+	// settledBefore(site): every path of site's function reaches it through a settle, or every call of that function does
+	var settledBefore func(site ssa.Instruction, depth int) (bool, string)
+	settledBefore = func(site ssa.Instruction, depth int) (bool, string) {
+		g := site.Parent()
+		esc, path := core.PathQ{Fn: g, Via: settles, Target: func(x ssa.Instruction, _ *ssa.BasicBlock) bool { return x == site }}.Escape()
+		if esc == nil {
+			return true, ""
+		}
+		cs := callers(g)
+		if len(cs) == 0 || depth > 2 {
+			return false, fname(g) + " reaches it without settling (" + c.P.PathString(path) + ")"
+		}
+		for _, cl := range cs {
+			if ok, why := settledBefore(cl, depth+1); !ok {
+				return false, "called from " + fname(cl.Parent()) + " at " + c.P.Pos(cl.Pos()) + "; " + why
+			}
+		}
+		return true, ""
+	}
+	n := 0
+	for _, f := range fns {
+		k := 0
+		core.Instrs(f, func(in ssa.Instruction) {
+			cc := core.CallOf(in)
+			if cc == nil || cc.StaticCallee() == nil || len(cc.Args) < 2 {
+				return
+			}
+			if nm := cc.StaticCallee().Name(); nm != "addValueToFund" && nm != "saveFund" {
+				return
+			}
+			if !isFieldOf(cc.Args[1], "ActiveFund") {
+				return
+			}
+			k++
+			n++
+			c.Sites++
+			c.Analysed(fname(f))
+			ok, why := settledBefore(in, 0)
+			c.Check(ok, "C38/rewards-settled-before-stake-changes", fmt.Sprintf("%s/%s#%d", fname(f), cc.StaticCallee().Name(), k), in.Pos(),
+				"the delegator's rewards are settled (or a new delegator's checkpoint set) before its active fund changes",
+				"the delegator's active fund is changed before its rewards are settled: "+why+" - the settling reads the fund back from storage and pays the epochs already passed at the new stake (rewards paid exceed rewards received)")
+		})
+	}
+	c.Floor("C38/rewards-settled-before-stake-changes", 2)
 }
 
 // c38UnBondReports returns the position of a Finish call reachable from validatorSC.unBondTokens
@@ -576,6 +799,7 @@ func c39LinksInPairs(c *core.Ctx) {
 		type loaded struct {
 			rec  ssa.Value
 			keys map[string]bool
+			at   ssa.Instruction
 		}
 		var elems []loaded
 		for _, in := range core.CallsIn(fn, func(in ssa.Instruction, cc *ssa.CallCommon) bool { return cc.StaticCallee() == getEl }) {
@@ -592,7 +816,7 @@ func c39LinksInPairs(c *core.Ctx) {
 				continue
 			}
 			ks, _ := origins(call.Call.Args[1], in)
-			elems = append(elems, loaded{rec, ks})
+			elems = append(elems, loaded{rec, ks, in})
 		}
 		writesField := func(rec ssa.Value, f *types.Var) bool {
 			hit := false
@@ -654,6 +878,18 @@ func c39LinksInPairs(c *core.Ctx) {
 				opposite = next
 			}
 			ok2, why := false, "the element stored under that key is not loaded in this function"
+			var neighbours []ssa.Value
+			for _, e := range elems {
+				shared := false
+				for o := range os {
+					if e.keys[o] {
+						shared = true
+					}
+				}
+				if shared && e.rec != fa.X && writesField(e.rec, opposite) && core.DominatesInstr(e.at, st) {
+					neighbours = append(neighbours, e.rec)
+				}
+			}
 			for _, e := range elems {
 				shared := false
 				for o := range os {
@@ -686,12 +922,76 @@ func c39LinksInPairs(c *core.Ctx) {
 			if !ok2 {
 				name = fmt.Sprintf("%s/%s←%s", fname(fn), f.Name(), strings.Join(osl, ","))
 			}
+			// the mirrored link names THIS element: the value written to the neighbour's opposite field is
+			// the key this element is saved under
+			if len(neighbours) > 0 {
+				var saveKey ssa.Value
+				core.Instrs(fn, func(in2 ssa.Instruction) {
+					cc := core.CallOf(in2)
+					if cc == nil || cc.StaticCallee() == nil || len(cc.Args) < 3 {
+						return
+					}
+					if nm := cc.StaticCallee().Name(); (nm == "saveWaitingListElement" || nm == "saveElementAndList") && cc.Args[2] == fa.X {
+						saveKey = cc.Args[1]
+					}
+				})
+				if saveKey != nil {
+					sameKey := func(a, b ssa.Value, at ssa.Instruction) bool {
+						if a == b || core.ExprKey(a) == core.ExprKey(b) {
+							return true
+						}
+						oa, owna := origins(a, at)
+						ob, ownb := origins(b, at)
+						if len(oa) == 0 && len(ob) == 0 {
+							return owna && ownb
+						}
+						if len(oa) != len(ob) {
+							return false
+						}
+						for k2 := range oa {
+							if !ob[k2] {
+								return false
+							}
+						}
+						return true
+					}
+					named, got := false, ""
+					core.Instrs(fn, func(in2 ssa.Instruction) {
+						st2, isSt := in2.(*ssa.Store)
+						if !isSt {
+							return
+						}
+						fa2, isFa := st2.Addr.(*ssa.FieldAddr)
+						if !isFa || !containsVal(neighbours, fa2.X) || core.FieldOfAddr(fa2) != opposite {
+							return
+						}
+						if sameKey(st2.Val, saveKey, st2) {
+							named = true
+						} else {
+							got = core.ExprKey(st2.Val)
+						}
+					})
+					c.Check(named, "C39/back-link-names-the-element", fmt.Sprintf("%s/%s#%d", fname(fn), f.Name(), k), st.Pos(),
+						"the neighbour's "+opposite.Name()+" is set to the key this element is saved under",
+						fmt.Sprintf("an element saved under %s links to its neighbour through %s, but the neighbour's %s is set to %s, not to that key: the two directions of the list disagree, and removing the neighbour later relinks through the stale key and cuts this element out while Length still counts it", core.ExprKey(saveKey), f.Name(), opposite.Name(), got))
+				}
+			}
 			c.Check(ok2, "C39/links-updated-in-pairs", name, st.Pos(),
 				"the neighbour this link points to (key read from "+strings.Join(osl, ", ")+") is loaded and its "+opposite.Name()+" is written in the same function",
 				fmt.Sprintf("%s of an element is set to a key read from %s, but %s: the neighbour keeps its old back link (e.g. still marks itself as the first element), and removing it later cuts elements out of the list while Length still counts them", f.Name(), strings.Join(osl, ", "), why))
 		})
 	}
 	c.Floor("C39/links-updated-in-pairs", 5)
+	c.Floor("C39/back-link-names-the-element", 3)
+}
+
+func containsVal(vs []ssa.Value, v ssa.Value) bool {
+	for _, x := range vs {
+		if x == v {
+			return true
+		}
+	}
+	return false
 }
 
 func isEmptyBytes(v ssa.Value) bool {
